@@ -41,3 +41,9 @@ def first_index(L, p):
 def remove_at(L, i):
     L = list(L)
     return L[:i] + L[i + 1:]
+
+
+def subset(A, B):
+    """every element of A occurs in B (field-wise equality)"""
+    B = [tuple(b) for b in B]
+    return all([tuple(a) in B for a in A])
